@@ -241,6 +241,7 @@ def run(ck, fb, fbd):
     quoted_name_rule(ck, fb)
     ascii_text_rules(ck, fb)
     write_buffer_rule(ck, fb)
+    readers.ovmb_encoding_rules(ck, fb)
     bool_codec_rule(ck, fb)
     empty_span_rule(ck, fb)
     readers.edge_dup_rule(ck, fb)
@@ -834,7 +835,7 @@ def bool_codec_rule(ck, fb):
 def empty_span_rule(ck, fb):
     """the writer emits a PROP chunk with an empty span for a persistent property of a kind without elements"""
     from .canon import Canon
-    ck.rule("C06.emptyspan", "BinaryFileReader::read_prop_chunk never rejects an empty span: the range error (first >= n ...) is raised only when span.empty() is known to be false, because the writer stores {first = 0, count = 0} for properties of entity kinds that have no elements (n = 0)")
+    ck.rule("C06.emptyspan", "BinaryFileReader::read_prop_chunk does not reject the empty span at the end of the range: files written before F65 store {first = 0, count = 0} for properties of entity kinds that have no elements (n = 0); the range error is raised either only for a non-empty span or by a test that is strict in first (first > n || n - first < count)")
     fs = [f for f in fb.fns.values() if f.has_cfg and f.name == "read_prop_chunk" and "BinaryFileReader" in (f.cls or "")]
     if not fs:
         raise AnalysisBroken("anchor vanished: BinaryFileReader::read_prop_chunk")
@@ -848,6 +849,20 @@ def empty_span_rule(ck, fb):
         n += 1
         fs_ = {(s_, p_) for s_, p_, c_ in cn.facts(b)}
         ok = any(s_.endswith(".span.empty()") and p_ is False for s_, p_ in fs_)
-        (ck.ok if ok else lambda r_, w_, t: ck.violate(r_, w_, t, "C06.emptyspan"))("C06.emptyspan", f.loc(x), "the span range error of read_prop_chunk is raised only for a non-empty span")
+        if not ok:
+            # or the test itself lets {first = n, count = 0} pass: the error block is reached through the two disjuncts of
+            # `first > n || n - first < count` (strict in first); the predecessor conditions are read from the CFG
+            conds = set()
+            for pb in f.reach():
+                if b in f.succ(pb):
+                    t_ = f.term(pb)
+                    if t_ and t_.get("cond"):
+                        conds.add(cn.s(t_["cond"]))
+                    for s2, p2, c2 in cn.facts(pb):
+                        conds.add(s2)
+            strict = any(re.search(r"span\.first > ", c_) for c_ in conds) and not any(re.search(r"span\.first >= ", c_) for c_ in conds)
+            room = any(re.search(r"\(\(.* - .*span\.first\) < .*span\.count\)", c_) for c_ in conds)
+            ok = strict and room
+        (ck.ok if ok else lambda r_, w_, t: ck.violate(r_, w_, t, "C06.emptyspan"))("C06.emptyspan", f.loc(x), "the span range error of read_prop_chunk is not raised for the empty span at the end of the range {first = n, count = 0}")
     if n == 0:
         ck.cannot_judge("%s: read_prop_chunk has no ErrorHandleRange assignment any more: rule C06.emptyspan cannot find the span test - re-audit" % f.where)
